@@ -393,8 +393,9 @@ def apply_contract(self, st, contract: Contract, recv, args, kwargs):
         if inv_shape is not None:
             for name, f in inv_shape.invariants:
                 s.assume(f(Ctx(self, s, recv, bound)))
-        if contract.effect_events and (contract.frame or getattr(contract, "event", None)):
-            s.events.append(("call", contract.key, case.name, bound))
+        if contract.effect_events and (contract.frame or getattr(contract, "event", None) or case.raises):
+            s.events.append({"ev": "call", "key": contract.key, "case": case.name, "args": bound, "result": result,
+                             "perms": tuple(s.perms)})
             for h in self.step_hooks:
                 h(self, s, f"after:{_short(contract.key)}:{case.name}")
         if case.raises is None:
